@@ -16,6 +16,14 @@ CLAIMS = {
          'worst-case rounding bounds, logsumexp/logmeanexp overflow behaviour and prod are not covered (n/a at L0/L1); the Neg impls and max-based reductions use iterator adapters outside Verus'),
  'C05': ('L1: slice-level matmul equals sum_k op(A)[i,k]*op(B)[k,j] for all four transpose combinations and every shape, non-conformable shapes rejected two-sidedly; the 16 Matrix.Matrix Dot methods against that contract (shape check, output shape, every entry)',
          'matmul_blocked and the 48 vector-promoting Dot methods are not yet under contract (replay battery only); machine-integer range preconditions'),
+ 'C06': ('integer + L1: which families carry a fixed dispersion, the convergence test (relative change of the loss below the tolerance, never on the first step), and the ridge penalty terms of the IRLS step (alpha*beta on the gradient and alpha on the Hessian diagonal, intercept unpenalised) as stated; products, reductions and the LU solve through their own contracts',
+         'the IRLS fixed point (score equations at convergence), compute_dbeta/ddbeta composition, the per-family link tables and deviance are not yet under contract (replay battery only); convergence itself is a liveness claim (n/a)'),
+ 'C07': ('L1: the sampled trapezoid rule equals the exact integral of the piecewise-linear interpolant for every sample count; the five-point Gauss-Legendre table satisfies the moment equations for degree <= 9 (exact rational check of the table, outside Verus)',
+         'trapz/quad5 on closures (callee is a caller-supplied Fn) are covered through the sampled form and the table only; Romberg convergence order and early exit are not decided by contracts (replay battery only)'),
+ 'C12': ('integer + L0 data-flow, for every pair of shapes: the classifier sends every NumPy-compatible pair to the leaf matching its shape case (also through the operand swap) and every incompatible pair to a rejection; each broadcast_{add,sub,mul,div} returns the element-wise-maximum shape with entry (i,j) = left[i|0][j|0] op right[i|0][j|0] in the written operand order and rejects exactly the incompatible pairs; the 48 Matrix/Matrix, Matrix/Vector, Vector/Matrix operator impls against those contracts',
+         'assumed contracts: apply_along_row (closure argument) and the zip/for_each row statements of the two V-stack leaves (outlined, rule R27); machine-integer range precondition (result size <= i32::MAX, dimensions >= 1)'),
+ 'C14': ('L1: Vandermonde design matrix entries are the powers x_r^i for every length and degree, xtx is the product X^T X, fit stores inv(V^T V) (V^T y) composed from the matmul contract with the matrix inverse abstract, mismatched x/y rejected',
+         'invert_matrix is assumed (inv_fn); predict (iterator adapters) and conditioning are not under contract'),
  'C08': ('L1: Welford aggregate invariant through every step (division-free), mean / welford_mean / population and sample variance / standard deviations and the two-pass covariances equal their textbook definitions over the reals; polynomial side lemmas by z3+cvc5 (QF_NRA)',
          'rounding-error and large-offset stability claims are n/a; min/max/argmin/argmax and hist_bin_centers (fold / iterator adapters), one-pass and online covariance are not under contract'),
  'C11': ('L1 structure of pivoted LU at slice and Matrix level: pivots stay a permutation, the pivot row maximises |.| in its column, every multiplier is bounded by 1',
